@@ -10,7 +10,7 @@ VERIF = os.path.dirname(os.path.dirname(os.path.abspath(__file__)))
 REPO = os.environ.get("VERIF_REPO", "/repo")
 
 
-def run(pid, spec):
+def run(pid, spec, tier="quick"):
     """spec: {"name", "dir", "crate_path", "bound", "timeout"} -> dict(status, families, cmd, wall_s, output)"""
     src = os.path.join(VERIF, spec["dir"])
     work = os.path.join(VERIF, "build", "native", "%s__%s" % (spec["name"], pid))     # per property: two checks may run at the same time
@@ -22,7 +22,7 @@ def run(pid, spec):
     lock = os.path.join(REPO, "Cargo.lock")
     if os.path.exists(lock):
         shutil.copy(lock, os.path.join(work, "Cargo.lock"))
-    env = dict(os.environ, CARGO_NET_OFFLINE="true", CARGO_TARGET_DIR=os.path.join(VERIF, "build", "harness_target"))
+    env = dict(os.environ, VERIF_HARNESS_TIER=tier, CARGO_NET_OFFLINE="true", CARGO_TARGET_DIR=os.path.join(VERIF, "build", "harness_target"))
     cmd = ["cargo", "run", "--offline", "--release", "--quiet"]
     t0 = time.time()
     try:
